@@ -58,6 +58,9 @@ TEMPLATES = [
     ('class',     ['class K{k}:', '    a = T({k})', '', '    def m(self):', '        return 1']),
     ('deco',      ['@D({k})', 'def g{k}():', '    pass']),
     ('decoclass', ['@D({k})', 'class Q{k}:', '    pass']),
+    # a comment line in column 0 *inside* a statement: between a decorator and its def, between an if suite and its else
+    ('decocomment', ['@D({k})', '# between the decorator and the def', 'def gc{k}():', '    pass']),
+    ('elsecomment', ['if T({k}) is None:', '    P({k})', '# otherwise', 'else:', '    P(-{k})']),
     ('lambda',    ['l{k} = lambda: T({k})', 'l{k}()']),
     ('del',       ['d{k} = T({k})', 'del d{k}']),
     ('await',     ['import asyncio', 'async def c{k}():', '    return T({k}, 5)', 'a{k} = await c{k}()']),
